@@ -372,6 +372,7 @@ def oracle(c, d, steps):
             t += 1
         evinfo.append((typ, t, xs))
     W = Fr(0)
+    work_amb = False
     seen = set()
     ti_acc = {}     # stage -> (sum, count)
     nst = d["nstages"]
@@ -406,11 +407,13 @@ def oracle(c, d, steps):
                     cp = spec_centers(c, d, t - 1, first, wrap=False)
                     Es, Fs, _ = spec_terms(c, d, kimp, cu, xs)
                     inc = [shortest(a - b, fr(v["P"])) if v["per"] else a - b for a, b, v in zip(cu, cp, c["vars"])]
+                    if any(v["per"] and abs(dc) == fr(v["P"]) / 2 for dc, v in zip(inc, c["vars"])):
+                        work_amb = True      # the centre moves by exactly half a period in one step: two closest images (DESIGN 3.2)
                     W += sum(f * dc for f, dc in zip(Fs, inc))
                 else:
                     _, _, dk = spec_terms(c, d, kimp, cimp, xs)
                     W += dk * (spec_k(c, d, t, first) - spec_k(c, d, t - 1, first))
-            if not close(float(W), o["W"]):
+            if not work_amb and not close(float(W), o["W"]):
                 bad.append(("work:%s" % ("centers" if m == "cc" else "k"), "step %d: accumulated work %r, sum of force x increment over the steps so far %r" % (t, o["W"], float(W))))
         # ---- staged TI: one line per stage, written by the new step that ends it, = mean of dU/dlambda over the
         #      stage's sampled steps (steps s in (first+gN, first+(g+1)N] with equil = 0 or (s-first) mod N >= equil)
@@ -518,7 +521,7 @@ def gen_case(r, k, quick=True):
     elif m in ("cc", "kc"):
         nsteps = c["N"] + r.randint(1, 4)
     else:
-        nsteps = min((nstg + 1) * c["N"] + r.randint(1, 3), 40)
+        nsteps = min((nstg + 1) * c["N"] + r.randint(1, 3) + (2 * c["N"] if r.random() < 0.25 else 0), 48)   # sometimes well beyond the documented run length
     # events: values near centres/walls, across the period; segmentation aimed at stage boundaries
     seg = r.choice(["none", "none", "B", "R", "BR", "BR"])
     ev = []
@@ -658,7 +661,10 @@ def cut_ambiguous(c, isteps, msteps):
             if v["per"] and i < len(o["C"]):
                 P = fr(v["P"])
                 sd = shortest(fr(xs[i]) - fr(o["C"][i]), P)
-                if abs(sd) != P / 2 and abs(float(abs(sd) - P / 2)) < 1e-9:    # exact (dyadic) ties are deterministic and stay compared
+                mc = msteps[idx]["C"][i] if idx < len(msteps) and i < len(msteps[idx]["C"]) else o["C"][i]
+                near = abs(float(abs(sd) - P / 2)) < 1e-9
+                # exact (dyadic) ties with bitwise equal centres in model and implementation are deterministic and stay compared
+                if near and (abs(sd) != P / 2 or mc != o["C"][i]):
                     c2 = dict(c, events=c["events"][:idx])
                     return c2, isteps[:idx], msteps[:idx], True
     return c, isteps, msteps, False
@@ -748,13 +754,15 @@ def abmd_part(run, r, runner, n):
 
 
 def hist_part(run, r, runner, n):
-    """histogramRestraint on 1-4 scalar values: energy = 1/2 (k M) sum_g (h(xi_g) - h0_g)^2, force = minus its derivative"""
+    """histogramRestraint on 1-4 scalar values and/or one vector variable (distancePairs, 2 components): energy =
+    1/2 (k M) sum_g (h(xi_g) - h0_g)^2 with M the total number of values, force = minus its derivative"""
     cases = []
     for k in range(n):
-        M = r.choice([1, 2, 2, 3, 4])
+        M = r.choice([0, 1, 2, 2, 3, 4])
+        dp = M == 0 or r.random() < 0.35          # a distancePairs variable: group1 {a b} group2 {c} -> 2 distances
         width = r.choice([0.25, 0.5, 1.0, 1.0, 2.0])
         nb = r.randint(2, 8)
-        lower = V.dyadic(r, -3, 1, bits=2)
+        lower = V.dyadic(r, -3, 1, bits=2) if not dp else V.dyadic(r, 0, 1, bits=2)
         sigma = r.choice([None, 0.25, 0.5, 1.0, 2.0])
         ref = [r.choice([0.0, 0.125, 0.25, 0.5, 1.0, 2.0]) for _ in range(nb)]
         if sum(ref) == 0:
@@ -765,13 +773,14 @@ def hist_part(run, r, runner, n):
         kk = r.choice([0.5, 1.0, 2.0, 8.0])
         steps = []
         for s_ in range(r.randint(2, 5)):
-            steps.append([lower + V.dyadic(r, -1, nb * width + 1, bits=3) for _ in range(M)])
-        cases.append({"M": M, "width": width, "nb": nb, "lower": lower, "sigma": sigma, "ref": ref, "k": kk, "steps": steps})
-    scn, ml, refs = [], [], []
+            zs = [lower + V.dyadic(r, -1, nb * width + 1, bits=3) for _ in range(M)]
+            pp = [[V.dyadic(r, -2, 2, bits=3) for _ in range(3)] for _ in range(3)] if dp else []
+            steps.append((zs, pp))
+        cases.append({"M": M, "dp": dp, "width": width, "nb": nb, "lower": lower, "sigma": sigma, "ref": ref, "k": kk, "steps": steps})
+    scn, refs = [], []
     for k, c in enumerate(cases):
         M = c["M"]
         sig = c["sigma"] if c["sigma"] is not None else 2.0 * c["width"]
-        # reference histogram as the code normalises it (same operation order)
         tot = 0.0
         for x in c["ref"]:
             tot += x
@@ -780,25 +789,35 @@ def hist_part(run, r, runner, n):
         if abs(integral - 1.0) > 1.0e-03:
             ref = [x / integral for x in ref]
         refs.append((ref, sig))
-        scn += ["echo CASE %d" % k, "natoms %d" % M, "new", "config EOF"]
+        scn += ["echo CASE %d" % k, "natoms %d" % (M + (3 if c["dp"] else 0)), "new", "config EOF"]
+        names = []
         for i in range(M):
             scn += colvar_block(i, {"w": 1.0, "per": False})
-        scn += ["histogramRestraint {", "  name r", "  colvars " + " ".join("v%d" % i for i in range(M)),
+            names.append("v%d" % i)
+        if c["dp"]:
+            scn += ["colvar {", "  name vp", "  distancePairs {", "    group1 { atomNumbers %d %d }" % (M + 1, M + 2),
+                    "    group2 { atomNumbers %d }" % (M + 3), "  }", "}"]
+            names.append("vp")
+        scn += ["histogramRestraint {", "  name r", "  colvars " + " ".join(names),
                 "  lowerBoundary %r" % c["lower"], "  upperBoundary %r" % (c["lower"] + c["nb"] * c["width"]), "  width %r" % c["width"]]
         if c["sigma"] is not None:
             scn.append("  gaussianSigma %r" % c["sigma"])
         scn += ["  refHistogram " + vec(c["ref"]), "  forceConstant %r" % c["k"], "}", "EOF", "show atomf 0 cv 0 energy 0 bias 0"]
-        for xs in c["steps"]:
-            for i, x in enumerate(xs):
+        for zs, pp in c["steps"]:
+            for i, x in enumerate(zs):
                 scn.append("pos %d 0 0 %s" % (i + 1, hx(x)))
+            for i, q in enumerate(pp):
+                scn.append("pos %d %s %s %s" % (M + 1 + i, hx(q[0]), hx(q[1]), hx(q[2])))
             scn += ["step", "rdump"]
-            ml.append("HIST %s %s %s %s %d %s %d %s" % (hx(c["k"]), hx(sig), hx(c["lower"]), hx(c["width"]), len(ref),
-                                                      " ".join(hx(x) for x in ref), M, " ".join(hx(x) for x in xs)))
         scn.append("echo END %d" % k)
-    rc, mout, e = V.run_lines(runner.model, ml)
     rc2, iout, e2 = V.run_lines(runner.unit, scn, cwd=runner.scratch)
     impl = parse_impl(iout)
-    mi = 0
+
+    def flat(x):
+        out = []
+        for q in x:
+            out += q if isinstance(q, list) else [q]
+        return out
 
     def energy(c, ref, sig, xs, scale):
         M = len(xs)
@@ -810,44 +829,53 @@ def hist_part(run, r, runner, n):
             tot += (h - ref[g]) ** 2
         return 0.5 * c["k"] * scale * tot
 
+    ml, where = [], []
     for k, c in enumerate(cases):
         cs = impl.get(k)
-        run.dist("histogramRestraint")
+        run.dist("histogramRestraint:%s" % ("vector" if c["dp"] else "scalar"))
         ref, sig = refs[k]
         if cs is None or not cs["complete"] or len(cs["steps"]) != len(c["steps"]) or any("err=ok" not in l for l in cs["config"]):
             run.mismatch("histogram", c, ((cs or {}).get("config", []) + (cs or {}).get("raw", []))[-3:], "complete run")
-            mi += len(c["steps"])
             continue
         nz = False
-        for xs, o in zip(c["steps"], cs["steps"]):
-            M = c["M"]
-            # oracle 1: closed form with the scaling the code uses (k M), forces by central differences of it
+        for (zs, pp), o in zip(c["steps"], cs["steps"]):
+            xs = flat(o["X"])
+            Fi = flat(o["F"])
+            M = len(xs)
+            if M != c["M"] + (2 if c["dp"] else 0) or any(abs(a - b) > 1e-12 for a, b in zip(xs, zs)):
+                run.mismatch("histogram", c, xs, "the %d imposed values" % (c["M"] + (2 if c["dp"] else 0)))
+                continue
+            rp = {"kind": "hist", "case": c, "values": xs}
             E = energy(c, ref, sig, xs, M)
             if not close(E, o["E"], 1e-9):
-                run.violation("potential:histogram:energy", "values %r: energy %r, 1/2 k M sum_g (h(xi_g) - h0_g)^2 = %r" % (xs, o["E"], E), {"kind": "hist", "case": c, "values": xs})
+                run.violation("potential:histogram:energy", "values %r: energy %r, 1/2 k M sum_g (h(xi_g) - h0_g)^2 = %r" % (xs, o["E"], E), rp)
             hh = 1.0 / 16384       # central difference: truncation ~ hh^2 E/sigma^3 < 1e-6, rounding ~ 1e-16 E/hh
             for i in range(M):
                 xp = list(xs); xp[i] += hh
                 xm = list(xs); xm[i] -= hh
                 fd = -(energy(c, ref, sig, xp, M) - energy(c, ref, sig, xm, M)) / (2 * hh)
-                if abs(fd - o["F"][i]) > 1e-5 * max(1.0, abs(fd), abs(o["F"][i])):
-                    run.violation("potential:histogram:force", "values %r: force on value %d is %r, minus the derivative of the energy is %r" % (xs, i, o["F"][i], fd), {"kind": "hist", "case": c, "values": xs})
-            # oracle 2: the DOCUMENTED potential 1/2 k INTEGRAL (h - h0)^2 dxi = 1/2 k width sum_g (...)^2 (mid-point rule on the grid)
+                if abs(fd - Fi[i]) > 1e-5 * max(1.0, abs(fd), abs(Fi[i])):
+                    run.violation("potential:histogram:force", "values %r: force on value %d is %r, minus the derivative of the energy is %r" % (xs, i, Fi[i], fd), rp)
             Edoc = energy(c, ref, sig, xs, c["width"])
             if abs(E) > 1e-12 and not close(Edoc, o["E"], 1e-9):
-                run.violation("potential:histogram:energy-scale", "M %d values %r, width %r: energy %r, documented 1/2 k integral (h-h0)^2 = %r (ratio %r = M/width)" % (M, xs, c["width"], o["E"], Edoc, o["E"] / Edoc if Edoc else float("nan")), {"kind": "hist", "case": c, "values": xs})
+                run.violation("potential:histogram:energy-scale", "M %d values %r, width %r: energy %r, documented 1/2 k integral (h-h0)^2 = %r (ratio %r = M/width)" % (M, xs, c["width"], o["E"], Edoc, o["E"] / Edoc if Edoc else float("nan")), rp)
             nz = nz or abs(o["E"]) > 1e-9
-            # tie
-            parts = mout[mi].split(" ; ") if mi < len(mout) else []
-            mi += 1
-            if len(parts) < 2:
-                run.mismatch("histogram", {"case": c, "values": xs}, o["E"], "no model output")
-                continue
-            me = float.fromhex(parts[0])
-            mf = flist(parts[1])
-            if not close(me, o["E"]) or len(mf) != len(o["F"]) or not all(close(a, b) for a, b in zip(mf, o["F"])):
-                run.mismatch("histogram", {"case": c, "values": xs}, [o["E"], o["F"]], [me, mf])
-        run.count("hist%d" % k, nz and c["M"] >= 2)
+            ml.append("HIST %s %s %s %s %d %s %d %s" % (hx(c["k"]), hx(sig), hx(c["lower"]), hx(c["width"]), len(ref),
+                                                      " ".join(hx(x) for x in ref), M, " ".join(hx(x) for x in xs)))
+            where.append((c, xs, o, Fi))
+        run.count("hist%d" % k, nz and (c["M"] >= 2 or c["dp"]))
+    rc, mout, e = V.run_lines(runner.model, ml)
+    if len(mout) != len(where):
+        run.mismatch("histogram", "model run", len(where), len(mout))
+    for (c, xs, o, Fi), line in zip(where, mout):
+        parts = line.split(" ; ")
+        if len(parts) < 2:
+            run.mismatch("histogram", {"case": c, "values": xs}, o["E"], "no model output")
+            continue
+        me = float.fromhex(parts[0])
+        mf = flist(parts[1])
+        if not close(me, o["E"]) or len(mf) != len(Fi) or not all(close(a, b) for a, b in zip(mf, Fi)):
+            run.mismatch("histogram", {"case": c, "values": xs}, [o["E"], Fi], [me, mf])
 
 
 # ---- manifold-valued variables --------------------------------------------------------------------------------------
@@ -871,64 +899,151 @@ def man_interp(kind, a, b, lam):
     return v if kind == "v3" else _norm(v)
 
 
+REFPOS = [(1.0, 0.0, 0.0), (0.0, 1.5, 0.0), (0.0, 0.0, 2.0), (-1.0, -1.0, 0.5)]
+NATOMS = {"s": 1, "p": 1, "v3": 2, "uv": 2, "q": 4, "vl": 4}
+DIM = {"s": 1, "p": 1, "v3": 3, "uv": 3, "q": 4, "vl": 4}
+
+
+def gen_dist2(v, a, b):
+    kind = v["kind"]
+    if kind == "s":
+        return (a[0] - b[0]) ** 2
+    if kind == "p":
+        return float(shortest(Fr(a[0]) - Fr(b[0]), Fr(v["P"]))) ** 2
+    if kind in ("v3", "vl"):
+        return sum((x - y) ** 2 for x, y in zip(a, b))
+    return man_dist2(kind, a, b)
+
+
+def gen_interp(v, a, b, lam):
+    kind = v["kind"]
+    c = [(1.0 - lam) * x + lam * y for x, y in zip(a, b)]
+    if kind in ("uv", "q"):
+        return _norm(c)
+    return c
+
+
+def gen_same(v, a, b):
+    if v["kind"] == "p":
+        return abs(float(shortest(Fr(a[0]) - Fr(b[0]), Fr(v["P"])))) <= 1e-9 * max(1.0, abs(a[0]))
+    return all(close(x, y, 1e-9) or abs(x - y) < 1e-12 for x, y in zip(a, b))
+
+
+def gen_var_block(i, v, a0):
+    """colvar block of variable i whose first atom is a0 (1-based)"""
+    kind = v["kind"]
+    fmtv = lambda q: "(" + ", ".join("%r" % x for x in q) + ")"
+    L = ["colvar {", "  name v%d" % i, "  width %r" % v["w"]]
+    if kind in ("s", "p"):
+        L += ["  distanceZ {", "    main { atomNumbers %d }" % a0, "    ref { dummyAtom (0,0,0) }", "    axis (0,0,1)"]
+        if kind == "p":
+            L += ["    period %r" % v["P"], "    wrapAround %r" % v["wc"]]
+        L += ["  }"]
+    elif kind in ("v3", "uv"):
+        L += ["  %s {" % ("distanceVec" if kind == "v3" else "distanceDir"), "    group1 { atomNumbers %d }" % a0, "    group2 { atomNumbers %d }" % (a0 + 1), "  }"]
+    elif kind == "q":
+        L += ["  orientation {", "    atoms { atomNumbers %d %d %d %d }" % (a0, a0 + 1, a0 + 2, a0 + 3), "    refPositions " + " ".join(fmtv(q) for q in REFPOS), "  }"]
+    else:
+        L += ["  distancePairs {", "    group1 { atomNumbers %d %d }" % (a0, a0 + 1), "    group2 { atomNumbers %d %d }" % (a0 + 2, a0 + 3), "  }"]
+    L += ["}"]
+    return L
+
+
+def gen_positions(r, v):
+    kind = v["kind"]
+    rv3 = lambda lo=-2, hi=2: [V.dyadic(r, lo, hi, bits=3) for _ in range(3)]
+    if kind in ("s", "p"):
+        z = r.choice([v["c0"][0], v["c1"][0]]) + V.dyadic(r, -2, 2, bits=3)
+        if kind == "p" and r.random() < 0.3:
+            z += r.randint(-2, 2) * v["P"]
+        return [[0.0, 0.0, z]]
+    if kind in ("v3", "uv"):
+        p1 = rv3()
+        while True:
+            dv = rv3()
+            if sum(x * x for x in dv) > 0.25:
+                break
+        return [p1, [x + y for x, y in zip(p1, dv)]]
+    if kind == "q":
+        pos = [[q[j] + V.dyadic(r, -0.5, 0.5, bits=3) for j in range(3)] for q in REFPOS]
+        if r.random() < 0.7:
+            a, b_ = r.choice([(0, 1), (1, 2), (0, 2)])
+            for q in pos:
+                q[a], q[b_] = -q[b_], q[a]
+        return pos
+    return [rv3(), [x + 3.0 for x in rv3()], [x - 3.0 for x in rv3()], rv3(-5, -3)]
+
+
 def manifold_part(run, r, runner, n):
-    """harmonic restraint on a 3-vector (distanceVec), a unit vector (distanceDir) and a quaternion (orientation):
-    energy = k/(2 w^2) (geodesic distance)^2 at the reported value; fixed, continuously moving and staged centres =
-    (normalised) linear interpolation, a function of the step alone under run boundaries and restarts"""
+    """harmonic restraint with fixed / continuously moving / staged centres on variables of every value type (scalar,
+    periodic scalar, 3-vector distanceVec, unit vector distanceDir, quaternion orientation, vector distancePairs), one or two
+    variables per restraint, run boundaries and restarts, accumulated work.  Tie: the generic machine of coq/C06/RestraintGen.v
+    (extracted) run on the values the implementation reports, compared after every event (energy, forces, centres, stage,
+    first_step, work).  Oracle: k/(2 w^2) x geodesic distance^2, centre = (normalised, wrapped) interpolation at lambda(t)."""
     cases = []
-    refpos = [(1.0, 0.0, 0.0), (0.0, 1.5, 0.0), (0.0, 0.0, 2.0), (-1.0, -1.0, 0.5)]
     for k in range(n):
-        kind = r.choice(["v3", "uv", "uv", "q", "q"])
-        dim = 4 if kind == "q" else 3
-        rv = lambda: [V.dyadic(r, -2, 2, bits=3) for _ in range(dim)]
-        def nonzero():
-            while True:
-                v = rv()
-                if sum(x * x for x in v) > 0.25:
-                    return v
-        c0, c1 = nonzero(), nonzero()
-        if kind != "v3":
-            # keep the interpolation away from antipodal end points
-            while sum(x * y for x, y in zip(_norm(c0), _norm(c1))) < -0.5:
-                c1 = nonzero()
+        nv = r.choice([1, 1, 2])
+        vars_ = []
+        for i in range(nv):
+            kind = r.choice(["v3", "uv", "uv", "q", "q", "s", "p", "vl"])
+            v = {"kind": kind, "w": r.choice([0.5, 1.0, 2.0])}
+            dim = DIM[kind]
+            def nonzero():
+                while True:
+                    q = [V.dyadic(r, -2, 2, bits=3) for _ in range(dim)]
+                    if sum(x * x for x in q) > 0.25:
+                        return q
+            c0, c1 = nonzero(), nonzero()
+            if kind in ("uv", "q"):
+                while sum(x * y for x, y in zip(_norm(c0), _norm(c1))) < -0.5:
+                    c1 = nonzero()
+            if kind == "p":
+                v["P"] = r.choice([4.0, 8.0])
+                v["wc"] = r.choice([0.0, 1.0, -2.5])
+                c1 = [c0[0] + r.choice([-1, 1]) * V.dyadic(r, 0.5, 6, bits=1)]
+            if kind == "vl":
+                c0 = [abs(x) + 3.0 for x in c0]
+                c1 = [abs(x) + 3.0 for x in c1]
+            v["c0"], v["c1"] = c0, c1
+            vars_.append(v)
         mode = r.choice(["none", "cc", "cc", "cs"])
-        c = {"kind": kind, "c0": c0, "c1": c1, "mode": mode, "k": r.choice([0.5, 1.0, 2.0, 4.0]), "w": r.choice([0.5, 1.0, 2.0]),
-             "N": r.choice([1, 2, 3, 4]), "nstages": r.choice([1, 2, 3]), "it0": r.choice([0, 0, 7]), "fmt": r.choice(["text", "binary"])}
+        c = {"vars": vars_, "mode": mode, "k": r.choice([0.5, 1.0, 2.0, 4.0]),
+             "N": r.choice([1, 2, 3, 4]), "nstages": r.choice([1, 2, 3]), "it0": r.choice([0, 0, 7]), "fmt": r.choice(["text", "binary"]),
+             "accw": mode == "cc" and r.random() < 0.7 and all(v["kind"] in ("s", "p", "v3", "vl") for v in vars_)}
         nsteps = {"none": r.randint(2, 4), "cc": c["N"] + r.randint(1, 3), "cs": (c["nstages"] + 1) * c["N"] + 2}[mode]
         ev = []
         seg = r.choice(["none", "B", "R", "BR"])
         for s_ in range(nsteps + 1):
-            if kind == "q":
-                # rigid rotation of the reference positions (+ small deformation): any 4 points
-                pos = [[p[j] + V.dyadic(r, -0.5, 0.5, bits=3) for j in range(3)] for p in refpos]
-                if r.random() < 0.7:
-                    a, b_ = r.choice([(0, 1), (1, 2), (0, 2)])
-                    for p in pos:
-                        p[a], p[b_] = -p[b_], p[a]      # quarter turn about the third axis
-            else:
-                p1 = [V.dyadic(r, -2, 2, bits=3) for _ in range(3)]
-                dv = nonzero()
-                pos = [p1, [x + y for x, y in zip(p1, dv)]]
+            pos = []
+            for v in vars_:
+                pos += gen_positions(r, v)
             ev.append(("S", pos))
             if seg != "none" and 0 < s_ < nsteps and r.random() < 0.4:
                 ev.append((r.choice(list(seg)), pos))
         c["events"] = ev
         cases.append(c)
+    # accumulated work of a centre moving on the unit sphere (recorded finding work:centers:unit-vector): centre (1,0,0) -> (0,1,0)
+    # in 4 steps, the variable held at (0,0,1): no work is done (the energy stays k/(2w^2) (pi/2)^2), yet W changes at every step
+    wv = {"kind": "uv", "w": 1.0, "c0": [1.0, 0.0, 0.0], "c1": [0.0, 1.0, 0.0]}
+    cases.append({"vars": [wv], "mode": "cc", "k": 1.0, "N": 4, "nstages": 1, "it0": 0, "fmt": "text", "accw": True, "uvwork": True,
+                  "events": [("S", [[0.0, 0.0, 0.0], [0.0, 0.0, 1.0]])] * 6})
     scn = []
+    fmtv = lambda q: ("%r" % q[0]) if len(q) == 1 else "(" + ", ".join("%r" % x for x in q) + ")"
     for k, c in enumerate(cases):
-        kind = c["kind"]
-        nat = 4 if kind == "q" else 2
-        fmtv = lambda v: "(" + ", ".join("%r" % x for x in v) + ")"
-        conf = ["config EOF", "colvar {", "  name v0", "  width %r" % c["w"]]
-        if kind == "q":
-            conf += ["  orientation {", "    atoms { atomNumbers 1 2 3 4 }", "    refPositions " + " ".join(fmtv(p) for p in refpos), "  }"]
-        else:
-            conf += ["  %s {" % ("distanceVec" if kind == "v3" else "distanceDir"), "    group1 { atomNumbers 1 }", "    group2 { atomNumbers 2 }", "  }"]
-        conf += ["}", "harmonic {", "  name r", "  colvars v0", "  forceConstant %r" % c["k"], "  centers " + fmtv(c["c0"])]
+        conf = ["config EOF"]
+        a0 = 1
+        for i, v in enumerate(c["vars"]):
+            conf += gen_var_block(i, v, a0)
+            a0 += NATOMS[v["kind"]]
+        nat = a0 - 1
+        conf += ["harmonic {", "  name r", "  colvars " + " ".join("v%d" % i for i in range(len(c["vars"]))), "  forceConstant %r" % c["k"],
+                 "  centers " + " ".join(fmtv(v["c0"]) for v in c["vars"])]
         if c["mode"] != "none":
-            conf += ["  targetCenters " + fmtv(c["c1"]), "  targetNumSteps %d" % c["N"]]
+            conf += ["  targetCenters " + " ".join(fmtv(v["c1"]) for v in c["vars"]), "  targetNumSteps %d" % c["N"]]
         if c["mode"] == "cs":
             conf += ["  targetNumStages %d" % c["nstages"]]
+        if c["accw"]:
+            conf += ["  outputAccumulatedWork on"]
         conf += ["}", "EOF"]
         L = ["echo CASE %d" % k, "natoms %d" % nat, "new"]
         if c["it0"]:
@@ -936,8 +1051,8 @@ def manifold_part(run, r, runner, n):
         L += ["capture"] + conf + ["show atomf 0 cv 0 energy 0 bias 0"]
         nsave = 0
         for typ, pos in c["events"]:
-            for i, p in enumerate(pos):
-                L.append("pos %d %s %s %s" % (i + 1, hx(p[0]), hx(p[1]), hx(p[2])))
+            for i, q in enumerate(pos):
+                L.append("pos %d %s %s %s" % (i + 1, hx(q[0]), hx(q[1]), hx(q[2])))
             if typ == "B":
                 L.append("runboundary")
             elif typ == "R":
@@ -951,60 +1066,248 @@ def manifold_part(run, r, runner, n):
     rc2, iout, e2 = V.run_lines(runner.unit, scn, cwd=runner.scratch, timeout=900)
     impl = parse_impl(iout)
     ml, where = [], []
+
+    def vecs(o, key):
+        x = o[key]
+        return [q if isinstance(q, list) else [q] for q in x]
+
     for k, c in enumerate(cases):
         cs = impl.get(k)
-        kind = c["kind"]
-        run.dist("manifold:%s:%s" % (kind, c["mode"]))
+        for v in c["vars"]:
+            run.dist("anytype:%s:%s" % (v["kind"], c["mode"]))
         rp = {"kind": "manifold", "case": {kk: vv for kk, vv in c.items() if kk != "scenario"}, "scenario": c["scenario"]}
         if cs is None or not cs["complete"] or len(cs["steps"]) != len(c["events"]) or any("err=ok" not in l for l in cs["config"]):
             run.mismatch("manifold", rp["case"], ((cs or {}).get("config", []) + (cs or {}).get("raw", []))[-3:], "complete run")
             continue
-        a0 = c["c0"] if kind == "v3" else _norm(c["c0"])
-        a1 = c["c1"] if kind == "v3" else _norm(c["c1"])
+        ends = []
+        for v in c["vars"]:
+            nrm = v["kind"] in ("uv", "q")
+            ends.append((_norm(v["c0"]) if nrm else v["c0"], _norm(v["c1"]) if nrm else v["c1"]))
         first = c["it0"]
         t = None
         N, nst = c["N"], c["nstages"]
+        W = 0.0
+        seen = set()
+        prev_c = None
+        okrun = True
         for (typ, pos), o in zip(c["events"], cs["steps"]):
             t = first if t is None else (t + 1 if typ == "S" else t)
             if o["it"] != t:
-                run.violation("protocol:step-number", "manifold scenario: module at step %d, engine at %d" % (o["it"], t), rp)
+                run.violation("protocol:step-number", "any-type scenario: module at step %d, engine at %d" % (o["it"], t), rp)
+                okrun = False
                 break
-            x = o["X"][0]
-            cen = o["C"][0]
-            # energy at the reported value and centre
-            E = 0.5 * c["k"] / (c["w"] * c["w"]) * man_dist2(kind, x, cen)
+            X, C, F = vecs(o, "X"), vecs(o, "C"), vecs(o, "F")
+            E = 0.0
+            for v, x, cen in zip(c["vars"], X, C):
+                E += 0.5 * c["k"] / (v["w"] * v["w"]) * gen_dist2(v, x, cen)
             if not close(E, o["E"], 1e-9) and abs(E - o["E"]) > 1e-12:
-                run.violation("potential:harmonic:%s:energy" % kind, "value %r centre %r: energy %r, k/(2 w^2) x geodesic distance^2 = %r" % (x, cen, o["E"], E), rp)
-            # schedule: centre = (normalised) interpolation at lambda(t)
+                run.violation("potential:harmonic:anytype:energy", "values %r centres %r: energy %r, sum of k/(2 w^2) x geodesic distance^2 = %r" % (X, C, o["E"], E), rp)
             if c["mode"] == "none":
-                lam = 0.0
+                lam = None
             elif c["mode"] == "cc":
                 lam = min(1.0, (t - first) / float(N))
             else:
                 nm = 0 if t <= first else min(nst + 1, (t - first - 1) // N + 1)
                 lam = None if nm == 0 else (nm - 1) / float(nst)
-            want = a0 if lam is None or c["mode"] == "none" else man_interp(kind, a0, a1, lam)
-            if not all(close(a, b, 1e-9) or abs(a - b) < 1e-12 for a, b in zip(want, cen)):
-                run.violation("schedule:centers:%s" % kind, "step %d (first %d, N %d, %s): centre %r, schedule prescribes %r" % (t, first, N, c["mode"], cen, want), rp)
-            # tie (energy at the interpolated centre; quaternion centres: only when they do not move)
-            lam_m = 0.0 if lam is None else lam
-            if kind != "q" or c["mode"] == "none" or lam_m == 0.0:
-                ml.append("MAN %s %s %s %s %s %s %s" % (kind, hx(c["k"]), hx(c["w"]), hx(lam_m if kind != "q" else 0.0),
-                                                     " ".join(hx(v) for v in a0), " ".join(hx(v) for v in a1), " ".join(hx(v) for v in x)))
-                where.append((k, t, o, rp))
+            want = [a if lam is None else gen_interp(v, a, b, lam) for v, (a, b) in zip(c["vars"], ends)]
+            for v, wv, cen in zip(c["vars"], want, C):
+                if not gen_same(v, wv, cen):
+                    run.violation("schedule:centers:%s" % v["kind"], "step %d (first %d, N %d, %s): centre %r, schedule prescribes %r" % (t, first, N, c["mode"], cen, wv), rp)
+            # work (vector-space types: increment = difference of consecutive scheduled centres, closest image if periodic)
+            if c["accw"] and all(v["kind"] in ("s", "p", "v3", "vl") for v in c["vars"]):
+                if t not in seen and t > first and t - first <= N:
+                    lam0 = min(1.0, (t - 1 - first) / float(N))
+                    for v, (a, b), f in zip(c["vars"], ends, F):
+                        cn, co = gen_interp(v, a, b, lam), gen_interp(v, a, b, lam0)
+                        inc = [x - y for x, y in zip(cn, co)]
+                        if v["kind"] == "p":
+                            inc = [float(shortest(Fr(cn[0]) - Fr(co[0]), Fr(v["P"])))]
+                        W += sum(x * y for x, y in zip(f, inc))
+                if not close(W, o["W"], 1e-9) and abs(W - o["W"]) > 1e-11:
+                    run.violation("work:centers:anytype", "step %d: accumulated work %r, sum of force . centre increment over the steps so far %r" % (t, o["W"], W), rp)
+            seen.add(t)
+        if not okrun:
+            continue
+        if c.get("uvwork"):
+            Es = [o["E"] for o in cs["steps"]]
+            Ws = [o["W"] for o in cs["steps"]]
+            if max(Es) - min(Es) < 1e-9 and abs(Ws[-1]) > 1e-6:
+                run.violation("work:centers:unit-vector", "centre moving (1,0,0)->(0,1,0) in 4 steps, value fixed at (0,0,1), k 1: the energy stays %r (no work is done on the variable) but the accumulated work is %r" % (Es[0], Ws), rp)
+            continue
+        # tie: the generic machine on the reported values
+        parts = ["GRUN", str(len(c["vars"]))]
+        for v in c["vars"]:
+            kind = v["kind"]
+            parts.append(kind)
+            if kind == "p":
+                parts += [hx(v["P"]), hx(v["wc"])]
+            if kind == "vl":
+                parts.append(str(DIM[kind]))
+            parts.append(hx(v["w"]))
+            parts += [hx(x) for x in v["c0"]] + [hx(x) for x in v["c1"]]
+        parts += [hx(c["k"]), "1" if c["mode"] != "none" else "0", str(c["N"] if c["mode"] != "none" else 0),
+                  str(c["nstages"] if c["mode"] == "cs" else 0), "1" if c["accw"] else "0", str(c["it0"]), str(len(c["events"]))]
+        for (typ, pos), o in zip(c["events"], cs["steps"]):
+            parts.append(typ)
+            for x in vecs(o, "X"):
+                parts += [hx(y) for y in x]
+        ml.append(" ".join(parts))
+        where.append((k, c, cs, rp))
         run.count("man%d" % k, c["mode"] != "none" or any(abs(o["E"]) > 1e-9 for o in cs["steps"]))
     rc, mout, e = V.run_lines(runner.model, ml)
-    for (k, t, o, rp), line in zip(where, mout):
-        parts = line.split(" ; ")
-        me = float.fromhex(parts[0])
-        if not close(me, o["E"], 1e-9) and abs(me - o["E"]) > 1e-12:
-            run.mismatch("manifold", {"case": rp["case"], "step": t}, o["E"], me)
-        if len(parts) > 1 and parts[1].strip() != "-":
-            mc = flist(parts[1].strip())
-            if not all(close(a, b, 1e-9) or abs(a - b) < 1e-12 for a, b in zip(mc, o["C"][0])):
-                run.mismatch("manifold", {"case": rp["case"], "step": t}, o["C"][0], mc)
     if len(mout) != len(where):
         run.mismatch("manifold", "model run", len(where), len(mout))
+    for (k, c, cs, rp), line in zip(where, mout):
+        recs = [parse_fields(part) for part in line.split(" ; ")]
+        if len(recs) != len(cs["steps"]):
+            run.mismatch("manifold", rp["case"], len(cs["steps"]), len(recs))
+            continue
+        for d_, o in zip(recs, cs["steps"]):
+            bad = None
+            me = float.fromhex(d_["E"])
+            eq = lambda a, b: a == b or close(a, b, 1e-9) or abs(a - b) < 1e-11     # a == b: equal infinities (force at the antipode of a unit-vector centre)
+            if int(d_["it"]) != o["it"]:
+                bad = "step %s vs %d" % (d_["it"], o["it"])
+            elif not eq(me, o["E"]):
+                bad = "E impl %r model %r" % (o["E"], me)
+            else:
+                mc, mf = vlist(d_["C"]), vlist(d_["F"])
+                for v, a, b in zip(c["vars"], mc, vecs(o, "C")):
+                    if not (gen_same(v, a, b) if v["kind"] == "p" else all(eq(x, y) for x, y in zip(a, b))):
+                        bad = "centres impl %r model %r" % (o["C"], mc)
+                for a, b in zip(mf, vecs(o, "F")):
+                    if len(a) != len(b) or not all(eq(x, y) for x, y in zip(a, b)):
+                        bad = bad or "forces impl %r model %r" % (o["F"], mf)
+                if c["mode"] != "none" and (int(d_["ST"]) != o["ST"] or int(d_["FS"]) != o["FS"]):
+                    bad = bad or "stage/first impl %d/%d model %s/%s" % (o["ST"], o["FS"], d_["ST"], d_["FS"])
+                if c["accw"] and not eq(float.fromhex(d_["W"]), o["W"]):
+                    bad = bad or "W impl %r model %r" % (o["W"], float.fromhex(d_["W"]))
+            if bad:
+                run.mismatch("manifold", {"case": rp["case"], "step": o["it"]}, bad, "agreement")
+                break
+
+
+def tsf_part(run, runner):
+    """timeStepFactor f > 1: the bias is updated every f steps.  Continuous schedules are evaluated at the updated steps
+    (and are stale in between, by design); staged schedules test exact step numbers and miss them (recorded finding)."""
+    def scen(extra, nsteps, k):
+        L = ["echo CASE %d" % k, "natoms 1", "new", "capture", "config EOF"] + colvar_block(0, {"w": 0.5, "per": False}) + [
+            "harmonic {", "  name r", "  colvars v0", "  centers 1.0", "  forceConstant 2.0"] + extra + ["  timeStepFactor 2", "}", "EOF",
+            "show atomf 0 cv 0 energy 0 bias 0", "pos 1 0 0 %s" % hx(0.5)]
+        return L + ["step", "rdump"] * nsteps + ["echo END %d" % k]
+    scn = scen(["  targetCenters 3.0", "  targetNumSteps 4"], 8, 0)                          # continuous centres
+    scn += scen(["  targetForceConstant 4.0", "  targetNumSteps 4", "  lambdaExponent 2"], 8, 1)   # continuous k
+    scn += scen(["  targetCenters 3.0", "  targetNumSteps 4", "  targetNumStages 2"], 12, 2)    # staged centres: moves due at steps 1, 5, 9
+    scn += scen(["  targetForceConstant 4.0", "  targetNumSteps 3", "  targetNumStages 2"], 8, 3)   # staged k: stage ends at 3, 6
+    rc2, iout, e2 = V.run_lines(runner.unit, scn, cwd=runner.scratch)
+    impl = parse_impl(iout)
+    for k in range(4):
+        cs = impl.get(k)
+        run.dist("timeStepFactor")
+        if cs is None or not cs["complete"] or any("err=ok" not in l for l in cs["config"]):
+            run.mismatch("timestepfactor", k, ((cs or {}).get("config", []) + (cs or {}).get("raw", []))[-3:], "complete run")
+            continue
+        run.count("tsf%d" % k, True)
+        for o in cs["steps"]:
+            t = o["it"]
+            tu = t - t % 2            # last updated step
+            rp = {"kind": "tsf", "scenario": k, "steps": [(q["it"], q["C"], q["K"]) for q in cs["steps"]]}
+            if k == 0:
+                want = 1.0 + 2.0 * min(1.0, tu / 4.0)
+                if not close(o["C"][0], want):
+                    run.violation("timestepfactor:continuous-centers", "timeStepFactor 2, step %d: centre %r, schedule at the last updated step %d prescribes %r" % (t, o["C"][0], tu, want), rp)
+            elif k == 1:
+                want = 2.0 + 2.0 * min(1.0, tu / 4.0) ** 2
+                if not close(o["K"], want):
+                    run.violation("timestepfactor:continuous-k", "timeStepFactor 2, step %d: k %r, schedule at the last updated step %d prescribes %r" % (t, o["K"], tu, want), rp)
+            elif k == 2:
+                nm = 0 if tu <= 0 else min(3, (tu - 1) // 4 + 1)
+                want = 1.0 if nm == 0 else 1.0 + 2.0 * (nm - 1) / 2.0
+                if not close(o["C"][0], want):
+                    run.violation("timestepfactor:staged-schedule-misses-steps", "timeStepFactor 2, centres 1->3, targetNumSteps 4, 2 stages, step %d: centre %r, schedule (at the last updated step %d) prescribes %r" % (t, o["C"][0], tu, want), rp)
+            else:
+                want = 2.0 + 2.0 * min(2, tu // 3) / 2.0
+                if not close(o["K"], want):
+                    run.violation("timestepfactor:staged-schedule-misses-steps", "timeStepFactor 2, k 2->4, targetNumSteps 3, 2 stages, step %d: k %r, schedule (at the last updated step %d) prescribes %r" % (t, o["K"], tu, want), rp)
+
+
+def ti_part(run, r, runner, n):
+    """colvarbias_ti attached to a harmonic restraint (writeTISamples): per bin of the variable, the collected samples are the
+    system forces (total force minus the force this bias applied) of the steps at which the variable was in that bin, each
+    step once.  Engine forces are imposed exactly (eforce on the single atom of a distanceZ variable)."""
+    cases = []
+    for k in range(n):
+        same = r.random() < 0.5
+        c = {"same": same, "k": r.choice([0.0, 0.5, 1.0, 2.0]), "center": V.dyadic(r, 0, 4, bits=2), "seg": r.choice(["none", "none", "B", "R"]),
+             "fmt": r.choice(["text", "binary"]), "steps": []}
+        for s_ in range(r.randint(4, 9)):
+            c["steps"].append((V.dyadic(r, -0.5, 4.5, bits=3), V.dyadic(r, -4, 4, bits=2)))
+        cases.append(c)
+    scn = []
+    for k, c in enumerate(cases):
+        conf = ["config EOF", "colvar {", "  name v0", "  width 1.0", "  lowerBoundary 0.0", "  upperBoundary 4.0", "  distanceZ {",
+                "    main { atomNumbers 1 }", "    ref { dummyAtom (0,0,0) }", "    axis (0,0,1)", "    oneSiteTotalForce on", "  }", "}",
+                "harmonic {", "  name r", "  colvars v0", "  centers %r" % c["center"], "  forceConstant %r" % c["k"], "  writeTISamples on", "}", "EOF"]
+        L = ["echo CASE %d" % k, "natoms 1", "totalforces 1", "samestep %d" % (1 if c["same"] else 0), "includecv 1", "new"] + conf + [
+             "show atomf 0 cv 0 energy 0 bias 0"]
+        ev = []
+        for i, (x, f) in enumerate(c["steps"]):
+            L += ["pos 1 0 0 %s" % hx(x), "eforce 1 0 0 %s" % hx(f), "step", "tidump"]
+            ev.append(("S", x, f))
+            if c["seg"] != "none" and 0 < i < len(c["steps"]) - 1 and r.random() < 0.35:
+                if c["seg"] == "B":
+                    L += ["runboundary", "step", "tidump"]
+                else:
+                    fn = os.path.join(runner.scratch, "ti%d_%d.state" % (k, i))
+                    L += ["save %s %s" % (c["fmt"], fn), "fresh"] + conf + ["load %s" % fn, "step", "tidump"]
+                ev.append((c["seg"], x, f))
+        L.append("echo END %d" % k)
+        c["events"] = ev
+        c["scenario"] = L
+        scn += L
+    rc2, iout, e2 = V.run_lines(runner.unit, scn, cwd=runner.scratch)
+    # parse TID lines per case
+    cur = None
+    got = {}
+    okc = {}
+    for l in iout:
+        if l.startswith("echo CASE"):
+            cur = int(l.split()[2]); got[cur] = []; okc[cur] = True
+        elif cur is not None and l.startswith("TID "):
+            got[cur].append([(int(t.split(":")[0]), float.fromhex(t.split(":")[1])) for t in l.split()[3:]])
+        elif cur is not None and (l.startswith("CONFIG") or l.startswith("LOAD") or l.startswith("SAVE")) and "err=ok" not in l:
+            okc[cur] = False
+    for k, c in enumerate(cases):
+        run.dist("colvarbias_ti:%s" % ("same-step" if c["same"] else "lagged"))
+        g = got.get(k, [])
+        rp = {"kind": "ti", "case": {kk: vv for kk, vv in c.items() if kk != "scenario"}, "scenario": c["scenario"]}
+        if not okc.get(k, False) or len(g) != len(c["events"]):
+            run.mismatch("colvarbias_ti", rp["case"], len(g), "%d dumps" % len(c["events"]))
+            continue
+        cnt = [0] * 4
+        sm = [0.0] * 4
+        binof = lambda x: int(math.floor(x)) if 0.0 <= x < 4.0 else None
+        prev = None          # (bin, force) of the previous NEW step (lagged mode)
+        bad = False
+        for j, (typ, x, f) in enumerate(c["events"]):
+            if typ == "S" and j > 0:
+                if c["same"]:
+                    b = binof(x)
+                    if b is not None:
+                        cnt[b] += 1; sm[b] += f
+                else:
+                    pb, pf = prev
+                    if pb is not None:
+                        cnt[pb] += 1; sm[pb] += pf
+            if typ == "S":
+                prev = (binof(x), f)
+            have = g[j]
+            if [h[0] for h in have] != cnt or not all(close(h[1], s_) for h, s_ in zip(have, sm)):
+                sig = "ti-estimator:samples" if typ == "S" else ("ti-estimator:run-boundary-step-sampled-twice" if typ == "B" else "ti-estimator:restart")
+                run.violation(sig, "%s total forces, event %d (%s, value %r, engine force %r): per-bin (count, sum of system forces) %r; the steps so far give counts %r sums %r" % ("same-step" if c["same"] else "lagged", j, typ, x, f, have, cnt, sm), rp)
+                bad = True
+                break
+        run.count("ti%d" % k, sum(cnt) >= 3)
 
 
 def setup():
@@ -1105,6 +1408,8 @@ def check(run):
     abmd_part(run, r, runner, 40 if quick else 2000)
     hist_part(run, r, runner, 40 if quick else 2500)
     manifold_part(run, r, runner, 60 if quick else 3000)
+    tsf_part(run, runner)
+    ti_part(run, r, runner, 40 if quick else 1500)
     run.cov["correspondence"].update({"scenarios": len(cases), "regression_scenarios": len(wit)})
 
 
